@@ -127,6 +127,8 @@ class Interp:
             return e.value
         if isinstance(e, ast.Name) and e.id in self.consts:
             return self.consts[e.id]
+        if isinstance(e, ast.Name) and isinstance(self.env.get(e.id), BV) and self.env[e.id].is_const():
+            return self.env[e.id].value()
         if isinstance(e, ast.BinOp):
             l, r = self.const_int(e.left), self.const_int(e.right)
             if l is None or r is None:
@@ -318,7 +320,7 @@ class Interp:
             if fill is not None:
                 if s == 1 and k == 0:
                     # whole-array fill with a repeating pattern: the record stride must be known already or equals len(fill)
-                    rec = self.res.stride.get(arr, len(fill) if len(fill) > 1 else None)
+                    rec = self.res.stride.get(arr, len(fill) if len(fill) > 1 else (4 if arr == self.arrays[0] else None))     # pixels are RGBA records
                     if rec is None:
                         raise AnalysisError(f'line {node.lineno}: whole-array fill before the record size of {arr} is known')
                     for j in range(rec):
